@@ -84,8 +84,8 @@ def correspond(res, tier):
 def search(res, tier, boost=False):
     rng = seed_rng(res.seed, 'C11s')
     curves = ['UnitSquare', 'Circle', 'LShape', 'PiSquare']
-    n_mesh = (2 if tier == 'quick' else 12) * (2 if boost else 1)
-    n_pairs = 5 if tier == 'quick' else 20
+    n_mesh = (3 if tier == 'quick' else 12) * (2 if boost else 1)
+    n_pairs = 8 if tier == 'quick' else 20
     worst = 0.0
     for mi in range(n_mesh):
         cname = curves[mi % len(curves)]
